@@ -19,6 +19,24 @@ def gen_mgr(seed, tier, out):
         subprocess.run([str(brv.BIN / "blkmgr"), "gen", str(seed), str(n), tier], stdout=f, check=True)
 
 
+def static_checks(facts):
+    """facts the harnesses / monitors rely on besides the Lean theorems (which use Facts.* directly)."""
+    ints = facts.get("ints", {})
+    strs = facts.get("strs", {})
+    out = []
+    for k, want in (("startedCap", 2), ("completeCap", 2)):
+        if ints.get(k) != want:
+            out.append((f"fact:{k}", f"{k} is {ints.get(k)}, not {want}: with fewer than 2 slots a send on Started/Complete can block "
+                                     "(C16_no_send_blocks needs 2 <= capacity; the handler and the first canceller both send)"))
+    if ints.get("requestsCap") != 10:
+        out.append(("fact:requestsCap", f"BlockManager.requests capacity is {ints.get('requestsCap')}; the blkmgr harness assumes 10"))
+    if ints.get("requestCompleteCap") != 0:
+        out.append(("fact:requestCompleteCap", "the request's complete channel is no longer unbuffered; the manager model's one-step abort signal must be revisited"))
+    if strs.get("cancelWaitOp") != ">=" or strs.get("noDownloadOp") != ">":
+        out.append(("fact:compare-op", f"give-up comparisons changed: count {strs.get('cancelWaitOp')} limit, countWithoutActiveDownload {strs.get('noDownloadOp')} limit; the models hard-code >= and >"))
+    return out
+
+
 SPEC = Spec(
     prop="C16",
     title="Block download requests always terminate, exactly once, under every interleaving",
@@ -49,6 +67,7 @@ SPEC = Spec(
         "NOT exercised against the implementation: the literal timers time.After(2 min), time.After(1 h), 60 x time.After(10 s) in block_downloader.go (the model has them as nondeterministic steps; the harness never waits for them), "
         "interleavings finer than call granularity (covered by the proofs only), and a peer that stalls inside ReadCloser.Read while CancelBlockRequest holds stateLock",
     ],
+    static_checks=static_checks,
     modelled_funcs=["BlockManager.AddRequest", "BlockManager.Run", "BlockManager.processRequest", "BlockManager.requestBlock", "BlockManager.cancelDownloaders",
                     "BlockManager.removeDownloader", "BlockManager.markBlockRequestComplete", "downloadFinisher.onDownloaderCompleted", "BlockManager.Stop",
                     "BlockManager.shutdown", "BlockManager.close", "NewBlockManager",
@@ -57,12 +76,19 @@ SPEC = Spec(
 )
 
 META = dict(
-    technique="Lean 4 proof (small-step transition system, inductive invariant proved per transition = all interleavings of any length) + model/implementation correspondence at call granularity",
-    text="The single downloader is a small-step model (Run, HandleBlock, any number of Cancel/Stop callers, interrupt, timers; channels = bounded FIFO with the extracted capacities). "
-         "Theorems over every reachable state: no send on Started/Complete can block (counting invariant: at most the handler and the first canceller ever send), "
-         "what is still owed after Run returned can be delivered, Run is never starved (it waits only for the handler's stream, or for a timer in two precisely characterised situations), Run returns once. "
-         "The model is tied to block_downloader.go by exhaustive call-granularity interleavings run against the real code with exact quiescence detection.",
-    note=COMMON_NOTE + "The model is nondeterministic; the driver tracks the set of model states compatible with the observations and rejects an observation the model does not allow. "
-         "Timers (2 min, 1 h, 60 x 10 s) are literals in the code and are not exercised. Finding (not a C16 violation, relevant to C05): Stop between the handler's Started and Run consuming it "
-         "makes Run return 'cancelled' while the handler may still confirm the block (corpus/C16/blkdl-stop-before-run-consumes.ops, theorem C16_note_cancelled_yet_confirmed).",
+    technique="Lean 4 proof (two small-step transition systems, inductive invariants proved per transition = all interleavings of any length, N downloaders a variable) "
+              "+ model/implementation correspondence at call granularity with exact quiescence detection",
+    text="Downloader (Run, HandleBlock, any number of Cancel/Stop callers, interrupt, timers; channels = bounded FIFO with the extracted capacities): for every reachable state "
+         "no send on Started/Complete can block (counting invariant: only the handler and the first canceller ever send), whatever is owed after Run returned can be delivered, "
+         "Run is never starved (it waits only for the handler's stream, or for a timer in two precisely characterised situations), every schedule is finite (decreasing measure), "
+         "Run returns once and returns nil only if HandleBlock ran to its end with nil. Manager (queue, registry of N downloaders finishing/failing in any order): a request id is signalled at most once and, "
+         "while Run lives, every request is signalled, current or queued; a closed signal is preceded by an effective mark caused by a downloader that returned nil for that hash while it was current; "
+         "uncancelled downloads <= max(concurrentBlockRequests,1), all of the current block; a registry with no pending return/finish step is empty. "
+         "Both models are tied to block_downloader.go / block_manager.go by exhaustive call-granularity interleavings and scripted-requestor runs against the real code.",
+    note=COMMON_NOTE + "The downloader model is nondeterministic; the driver tracks the set of model states compatible with the observations and rejects an observation the model does not allow. "
+         "Timers (2 min, 1 h, 60 x 10 s) are literals in the code and are not exercised; interleavings finer than a call are covered by the proofs only. "
+         "Findings, none a C16 violation: (1) Stop between the handler's Started and Run consuming it makes Run return 'cancelled' while the handler may still confirm the block "
+         "(corpus/C16/blkdl-stop-before-run-consumes.ops, theorem C16_note_cancelled_yet_confirmed) - relevant to C05; (2) bitcoin_node.go answers 'already started' before HandleBlock is called, "
+         "and never calls it if reading the tx count then fails: Run is released only by timers (case 5 of C16_run_progress); (3) the first requestBlock of a request ignores the registry: "
+         "with concurrentBlockRequests=0 one download still runs, and a re-request of a hash whose cancelled download still lingers exceeds the configured count in the registry.",
 )
